@@ -56,8 +56,8 @@ CONSTANTS
   DLen <- %s
   Nfbs = {1, 2}
   MaxArrivals = %d
-  FixEpochs = FALSE
-INVARIANTS Exact CompleteIff CovInv NoLeak
+  FixEpochs = TRUE
+INVARIANTS Exact CompleteIff CovInv NoLeak NoStaleCull
 CHECK_DEADLOCK FALSE
 """
 
